@@ -422,7 +422,7 @@ class AtomGrid(Grid):
 
         pts = pts * self.rgrid[index].points
         wts = wts * self.rgrid[index].weights
-        if r_sq is True:
+        if r_sq:
             wts = wts * self.rgrid[index].points ** 2
 
         # update points and weights of angular grid
